@@ -21,17 +21,16 @@ theorem convKey_of_isPyName {n : String} (h : isPyName n = true) : convKey n = p
 for the python leaves of the input (`leafClause_of_comp`, results in C05's regular setting by `ItemShape`),
 `createNested_exact` through `parse_marker` (`createNested_poetry`), canonical names, and C12's two answers at the
 probe for constraints of the regular setting (`allowsAll_py`, `allowsAny_py`).  What remains: the leaf specification
-`S`, `ReparseNames`, that the project's range is a well-formed constraint (`hpcok`, true of what `parse_constraint`
+`S`, that the project's range is a well-formed constraint (`hpcok`, true of what `parse_constraint`
 returns), and `pyConstraint_exact` for the python-only sub-unions the `MarkerUnion` shortcut builds (`hlow`). -/
 theorem reduceCtx_poetry (E : Env) (X Y Z : Nat) (hE : EnvPy E X Y Z) (S : LeafSpec (leafEval E) (CompLeaf E))
-    (HR : ReparseNames) (pc : VC) (hd : PyDomVC pc = true) (hpcok : PyVCok pc)
+    (pc : VC) (hd : PyDomVC pc = true) (hpcok : PyVCok pc)
     (hpc : pc.allowsPlain (pyV X Y Z) = true)
     (hlow : ∀ (u : M) (g : VC), M.Good (CompLeaf E) u → (∀ n ∈ M.vars u, n ∈ pyNames) → gpc u = .ok g →
       PyVCok g ∧ (g.allowsPlain (pyV X Y Z) = true → M.sem (leafEval E) u = true)) :
     ReduceCtx (leafEval E) (CompLeaf E) PyShaped PyVCok pc (pyV X Y Z) where
   spec := S
   canon := fun l hl => by obtain ⟨_, _, _, _, hc⟩ := hl; exact hc
-  reparse := HR
   gpcLeaf_exact := fun l c hg hp hn hgl => by
     obtain ⟨s, item, rfl, hop, hitem, ⟨vc, hvc, hb⟩, hshape⟩ :=
       leafClause_of_comp E X Y Z hE l hg hp (convKey_of_isPyName hn)
